@@ -448,12 +448,25 @@ fn find_in_items(items: &[syn::Item], path: &[String]) -> Option<Found> {
                 if ty_base != want_ty {
                     continue;
                 }
-                let tr = i
-                    .trait_
-                    .as_ref()
-                    .and_then(|(_, p, _)| p.segments.last().map(|s| s.ident.to_string()));
+                // the trait's last path segment; `Trait<Args>` in the target selects that
+                // instantiation, a bare `Trait` the impl without arguments
+                let tr = i.trait_.as_ref().and_then(|(_, p, _)| {
+                    p.segments.last().map(|s| {
+                        (s.ident.to_string(), s.to_token_stream().to_string().replace(' ', ""))
+                    })
+                });
                 if let Some(wt) = &want_trait {
-                    if tr.as_deref() != Some(wt.as_str()) {
+                    let ok = match &tr {
+                        Some((ident, full)) => {
+                            if wt.contains('<') {
+                                full == wt
+                            } else {
+                                ident == wt && full == ident
+                            }
+                        }
+                        None => false,
+                    };
+                    if !ok {
                         continue;
                     }
                 }
